@@ -6,6 +6,7 @@ completion order, any rejection pattern, any random decisions (re-evaluation coi
 Float laws used: none.
 -/
 import CambrianModel.Lemmas.PopInv
+import CambrianModel.Model.Launch
 namespace Cambrian.Props
 open Cambrian Cambrian.Ctl Cambrian.Algo
 
@@ -108,5 +109,27 @@ theorem C08_first (c : Cfg) (ss : Nat) (hss : 0 < ss) (v0 d : V) (chs : Nat → 
     simp only [init, again, finish]
     split <;> rw [hsm] <;> rfl
   rw [this, hinit]
+
+/-- The hypotheses `0 < ss` (and `0 < nc` of C05 / C02) of the theorems above hold for every run that starts: a
+    configuration accepted by `AlgoConfigBuilder::build` has sample size >= 1 and concurrency >= 1 (an obligation on
+    the source facts `zeroSampleSizeRejected`, `zeroNumConcurrentRejected` and the two defaults, read on every run). -/
+theorem C08_config_pos (ss nc : Option Nat) (c : Launch.AlgoCfg) (h : Launch.buildConfig ss nc = .ok c) :
+    0 < c.sampleSize ∧ 0 < c.numConcurrent := by
+  have h1 : Generated.zeroSampleSizeRejected = true := by decide
+  have h2 : Generated.zeroNumConcurrentRejected = true := by decide
+  simp only [Launch.buildConfig, h1, h2, Bool.true_and] at h
+  split at h
+  · cases h
+  · split at h
+    · cases h
+    · injection h with h
+      subst h
+      simp only [beq_iff_eq] at *
+      omega
+
+/-- the defaults themselves are accepted, and an explicit zero is rejected (non-vacuity / error branches) -/
+example : Launch.buildConfig none none = .ok { sampleSize := 1, numConcurrent := 1 } := rfl
+example : Launch.buildConfig (some 0) (some 3) = .error .zeroSampleSize := rfl
+example : Launch.buildConfig (some 2) (some 0) = .error .zeroNumConcurrent := rfl
 
 end Cambrian.Props
